@@ -15,7 +15,8 @@ RULE = ('Hypothesis-generated operation programs (0-10 steps plus bursts of up t
         'bodies, raising bodies, intercepted calls cut short by an interrupt-style exception that the operation swallows, raising operations, 2-3 worker threads with thread-private output aliases; values from '
         'the faithful domain, objects-without-aliasing and aliasing-without-list-state families) are built into real '
         'classes with the real decorators, recorded once, stored and fetched through a cassette in {in-memory, file, '
-        'S3/"", S3/"p/q", async wrapper over in-memory, async wrapper over slow storage}, and replayed (playback function builds the instance directly '
+        'S3/"", S3/"p/q", async wrapper over in-memory, async wrapper over slow storage} - on a fresh recorder or on one that '
+        'already recorded (and replayed) another operation with the same output aliases -, and replayed (playback function builds the instance directly '
         'or resolves the class from the recording metadata). Oracle (round trip): every call site gets the same value '
         '(==, same type) or the same exception type as live; same operation result; playback_outputs == '
         'recorded_outputs as key->value maps without duplicate keys; no wrapped body executes during replay. '
@@ -84,6 +85,10 @@ def check_roundtrip(ctx, case):
     try:
         rec = TapeRecorder(rec_cas)
         rec.enable_recording()
+        if case.get('prior') and rec_cas is fetch_cas:
+            # the recorder has a history: it recorded (and replayed) another operation using the same output aliases
+            from pbt import faultrun as FR
+            FR.warm_up(rec, prog, case['prior'])
         W = PS.World('LIVE')
         cls = PS.build_class(prog, rec, W)
         live = PS.execute(cls, prog)
@@ -171,7 +176,8 @@ def check_roundtrip(ctx, case):
         if any(set(d['fallback']['aliases']) & (live - {d['alias']}) for d in prog['ins'] if d.get('fallback')):
             shapes.add('fallback-is-live-alias-of-other-input')
     ctx.case(case, nt, classes=tuple('shape:' + s for s in sorted(shapes)) + (
-        'cassette:' + cassette, 'style:' + style, 'family:' + case.get('family', '?')))
+        'cassette:' + cassette, 'style:' + style, 'family:' + case.get('family', '?'),
+        'prior:' + str(case.get('prior'))))
 
 
 @st.composite
@@ -213,7 +219,8 @@ def cases():
                                   {'sampling_rate': 1.5}, {'ignore_enforced_sampling': True}])
         return st.fixed_dictionaries({'prog': with_fallbacks(PS.programs(values=values, params=params, swallowed_interrupts=True)),
                                       'cassette': st.sampled_from(CASSETTES),
-                                      'style': st.sampled_from(['direct', 'metadata-class']), 'family': st.just(name)})
+                                      'style': st.sampled_from(['direct', 'metadata-class']), 'family': st.just(name),
+                                      'prior': st.sampled_from([None, None, None, ['record'], ['record', 'play']])})
     return st.one_of(fam('objects', V.small_values), fam('objects', V.small_values),
                      fam('aliasing', V.aliasing_values()), fam('ints', st.integers(0, 5)))
 
